@@ -136,6 +136,14 @@ class WalkModel:
                                 for name in rets:
                                     if name in callee.nested:
                                         return callee, callee.nested[name]
+                                # return _Fetcher(self, size): an instance of a small class with __call__
+                                from .common import bound_method_as_closure
+
+                                for r in own_nodes(callee.node):
+                                    if isinstance(r, ast.Return) and r.value is not None:
+                                        view = bound_method_as_closure(self.ctx, callee, r.value)
+                                        if view is not None:
+                                            return callee, view
         raise AnalysisError("bulk fetcher factory / closure not found")
 
     def _dedup(self) -> Tuple[FuncInfo, List[ast.Call]]:
